@@ -33,6 +33,7 @@ def run(ctx):
     ctx.guard("R15.5", "suspend", lambda: tr.suspend_before_effect(ctx, "R15.5", "xml"))
     ctx.guard("R15.5", "charref-stuck", lambda: tr.charref_needs_more_input_means_stuck(ctx, "R15.5", "xml"))
     ctx.guard("R15.5", "temp_buf", lambda: tr.temp_buf_dataflow(ctx, "R15.5", "xml"))
+    ctx.guard("R15.5", "eat-stash", lambda: tr.eat_drains_queue(ctx, "R15.5", "xml"))
     ctx.guard("R15.6", "options", lambda: tr.option_invariance(ctx, "R15.6", "xml", exempt={"pop_except_from": "selects the character-by-character path; equivalence is R15.1"}))
 
     def nf():
